@@ -313,8 +313,11 @@ def cli_case(draw):
     groups = draw(st.lists(st.sampled_from(names), max_size=3, unique=False))
     style = draw(st.sampled_from(['cluster', 'separate', 'long']))
     mode = draw(st.sampled_from(['-n', '-n', '-l', '-a']))
+    # how the selected set is presented: JSON, hex blocks (-x), or files written by --json
+    variant = draw(st.sampled_from(['json', 'json', 'json', 'hex', 'files']))
     sev_pos = draw(st.sampled_from(['before', 'after']))
-    return {'pels': pels, 'on': on, 'groups': groups, 'style': style, 'mode': mode, 'sev_pos': sev_pos}
+    return {'pels': pels, 'on': on, 'groups': groups, 'style': style, 'mode': mode, 'sev_pos': sev_pos,
+            'variant': variant}
 
 
 def build_argv(case, d):
@@ -337,6 +340,50 @@ def build_argv(case, d):
     if case['sev_pos'] == 'after':
         argv += sev
     return argv
+
+
+def selected_by_variant(case, argv, d, want):
+    """the same selection seen through --hex (blocks parse back to the files) and --json (files written)"""
+    from .c13 import split_blocks
+    from ..util import parse_default_dump
+    variant = case.get('variant', 'json')
+    if variant == 'hex' and case['mode'] in ('-l', '-a'):
+        argv = argv + ['-x']
+        r = cli.forked(argv)
+        if r.status != 0:
+            raise Violation('C07.cli', 'peltool %s failed: %s' % (' '.join(argv), r.brief()))
+        got = []
+        for block in split_blocks(r.out):
+            raw = parse_default_dump([l for l in block if l.strip()], 'hex block') if any(l.strip() for l in block) else b''
+            if len(raw) < 48:
+                raise Violation('C07.cli', 'peltool %s printed a block of %d bytes' % (' '.join(argv), len(raw)))
+            got.append(int.from_bytes(raw[44:48], 'big') - 0x50000000)
+        what = 'dumps'
+    elif variant == 'files':
+        out = os.path.join(d, 'out')
+        os.mkdir(out)
+        argv = [a for a in argv if a not in ('-n', '-l', '-a', '--show-pel-count', '--list', '--all-pels')]
+        # clustered spelling: replace the mode letter
+        argv = [('-j' + a[2:]) if (a.startswith('-') and not a.startswith('--') and len(a) > 2 and a[1] in 'nla') else a
+                for a in argv]
+        if not any(a == '-j' or (a.startswith('-j') and not a.startswith('--')) for a in argv):
+            argv = ['-j'] + argv
+        argv += ['-o', out]
+        r = cli.forked(argv)
+        if r.status != 0:
+            raise Violation('C07.cli', 'peltool %s failed: %s' % (' '.join(argv), r.brief()))
+        got = []
+        for fn in os.listdir(out):
+            parts = fn.split('.')
+            if len(parts) == 3 and parts[2] == 'json':
+                got.append(int(parts[0][3:]))
+        what = 'writes JSON files for'
+    else:
+        return
+    if sorted(got) != want:
+        raise Violation('C07.cli', 'peltool %s %s PELs %r, the documented rules select %r of %r'
+                        % (' '.join(a for a in argv if not a.startswith('/')), what, sorted(got), want, case['pels']),
+                        sig='C07.cli.%s' % case.get('variant'))
 
 
 @PROP.given('cli-options', lambda tier: cli_case(), quick=1600, thorough=8000, shards_quick=8)
@@ -377,7 +424,8 @@ def cli_options(case, note):
             if got != want:
                 raise Violation('C07.cli', 'peltool %s shows PELs %r, the documented rules select %r of %r'
                                 % (' '.join(argv), got, want, case['pels']), sig='C07.cli.all')
-        note.label('style-' + case['style'], 'mode' + case['mode'])
+        selected_by_variant(case, argv, d, want)
+        note.label('style-' + case['style'], 'mode' + case['mode'], 'variant-' + case.get('variant', 'json'))
         if O:
             note.label('only')
         if groups and (s or N or H):
